@@ -26,30 +26,30 @@ theorem mu_congr {σ} (env : Env) (a : Abs σ) (s s' : Sc σ) (h : s'.cur = s.cu
 def bigM {σ} (env : Env) (a : Abs σ) (s : Sc σ) : Nat := (findCap + 1) * mu env a s + s.finds.length
 
 /-- covered by the reach set with potentials at most `Bm` / `B`, or the file has been read to its end -/
-def GoodP {σ} [DecidableEq σ] (env : Env) (reachAt : σ → List (List σ × List Ev × Nat × Bool)) (Bm B : Nat) (s : Sc σ) : Prop :=
-  (∃ a, memR reachAt a = true ∧ Conc a s ∧ mu env a s ≤ Bm ∧ bigM env a s ≤ B) ∨
-    (s.cur > env.size ∧ (∃ a, Conc a s) ∧ s.finds.length ≤ B)
+def GoodP {σ} [DecidableEq σ] (env : Env) (reachAt : σ → List (RKey σ)) (Bm B : Nat) (s : Sc σ) : Prop :=
+  (∃ a, memR reachAt a = true ∧ Conc a s ∧ ExtRel env.size a s ∧ mu env a s ≤ Bm ∧ bigM env a s ≤ B) ∨
+    (s.cur > env.size ∧ (∃ a, Conc a s ∧ ExtRel env.size a s) ∧ s.finds.length ≤ B)
 
-theorem GoodP.mono {σ} [DecidableEq σ] {env : Env} {reachAt : σ → List (List σ × List Ev × Nat × Bool)} {Bm Bm' B B' : Nat} {s : Sc σ}
+theorem GoodP.mono {σ} [DecidableEq σ] {env : Env} {reachAt : σ → List (RKey σ)} {Bm Bm' B B' : Nat} {s : Sc σ}
     (h : GoodP env reachAt Bm B s) (hm : Bm ≤ Bm') (hb : B ≤ B') : GoodP env reachAt Bm' B' s := by
-  rcases h with ⟨a, ha, hc, h1, h2⟩ | ⟨h1, h2, h3⟩
-  · exact Or.inl ⟨a, ha, hc, Nat.le_trans h1 hm, Nat.le_trans h2 hb⟩
+  rcases h with ⟨a, ha, hc, hx, h1, h2⟩ | ⟨h1, h2, h3⟩
+  · exact Or.inl ⟨a, ha, hc, hx, Nat.le_trans h1 hm, Nat.le_trans h2 hb⟩
   · exact Or.inr ⟨h1, h2, Nat.le_trans h3 hb⟩
 
-theorem GoodP.good {σ} [DecidableEq σ] {env : Env} {reachAt : σ → List (List σ × List Ev × Nat × Bool)} {Bm B : Nat} {s : Sc σ}
+theorem GoodP.good {σ} [DecidableEq σ] {env : Env} {reachAt : σ → List (RKey σ)} {Bm B : Nat} {s : Sc σ}
     (h : GoodP env reachAt Bm B s) : Good env reachAt s := by
-  rcases h with ⟨a, ha, hc, _⟩ | ⟨h1, h2, _⟩
-  · exact Or.inl ⟨a, ha, hc⟩
+  rcases h with ⟨a, ha, hc, hx, _⟩ | ⟨h1, h2, _⟩
+  · exact Or.inl ⟨a, ha, hc, hx⟩
   · exact Or.inr ⟨h1, h2⟩
 
 /-- outcome of a call: never exhausted fuel; a call that returns a lexeme has lowered the call potential -/
-def ProgOk {σ} [DecidableEq σ] (env : Env) (reachAt : σ → List (List σ × List Ev × Nat × Bool)) (Bm B : Nat) :
+def ProgOk {σ} [DecidableEq σ] (env : Env) (reachAt : σ → List (RKey σ)) (Bm B : Nat) :
     Except Fault (Option Lexeme × Sc σ) → Prop
   | .ok (some _, s') => ∃ B', B' < B ∧ GoodP env reachAt Bm B' s'
   | .ok (none, s') => GoodP env reachAt Bm B s'
   | .error f => f ≠ .fuel
 
-theorem ProgOk.mono {σ} [DecidableEq σ] {env : Env} {reachAt : σ → List (List σ × List Ev × Nat × Bool)} {Bm Bm' B B' : Nat}
+theorem ProgOk.mono {σ} [DecidableEq σ] {env : Env} {reachAt : σ → List (RKey σ)} {Bm Bm' B B' : Nat}
     {r : Except Fault (Option Lexeme × Sc σ)} (h : ProgOk env reachAt Bm B r) (hm : Bm ≤ Bm') (hb : B ≤ B') :
     ProgOk env reachAt Bm' B' r := by
   cases r with
@@ -85,7 +85,9 @@ theorem runProg_ne_fuel {σ} (env : Env) (c : UInt8) (p : Prog σ) (s : Sc σ) :
     · simp
     · split
       · simp
-      · exact ih _
+      · split
+        · simp
+        · exact ih _
   | ite cnd t e iht ihe =>
     simp only [runProg]
     split
@@ -118,7 +120,7 @@ theorem stepFuel_ne_fuel {σ} (env : Env) (prog : σ → Prog σ) (c : UInt8) (n
 /-- one iteration of the byte loop strictly lowers the potential -/
 theorem mu_step {σ} (env : Env) (a a' : Abs σ) (s s1 : Sc σ)
     (h0 : 0 ≤ s.cur) (hsz : s.cur ≤ env.size) (hlag : a.lag ≤ rewCap)
-    (hr : CurRel ⟨s.cur, s.finds.length, a.lag, a.fresh⟩ a' s1) :
+    (sz : Int) (eo : Bool) (hr : CurRel ⟨s.cur, s.finds.length, a.lag, a.fresh, sz, eo⟩ a' s1) :
     mu env a'.next ({ s1 with cur := s1.cur + 1 } : Sc σ) < mu env a s := by
   obtain ⟨hnoJmp, hjmp, _, _, hl, hf, hrewOk, hjmpOk⟩ := hr
   simp only at hnoJmp hjmp hl hf hrewOk hjmpOk
@@ -155,9 +157,9 @@ theorem mu_step {σ} (env : Env) (a a' : Abs σ) (s s1 : Sc σ)
 /-- one iteration also lowers the call potential: at most `findCap` events are queued per byte -/
 theorem bigM_step {σ} (env : Env) (a a' : Abs σ) (s s1 : Sc σ)
     (h0 : 0 ≤ s.cur) (hsz : s.cur ≤ env.size) (hlag : a.lag ≤ rewCap)
-    (hr : CurRel ⟨s.cur, s.finds.length, a.lag, a.fresh⟩ a' s1) :
+    (sz : Int) (eo : Bool) (hr : CurRel ⟨s.cur, s.finds.length, a.lag, a.fresh, sz, eo⟩ a' s1) :
     bigM env a'.next ({ s1 with cur := s1.cur + 1 } : Sc σ) < bigM env a s := by
-  have hmu := mu_step env a a' s s1 h0 hsz hlag hr
+  have hmu := mu_step env a a' s s1 h0 hsz hlag sz eo hr
   have h1 := hr.nf
   have h2 := hr.nfCap
   simp only at h1
@@ -165,7 +167,7 @@ theorem bigM_step {σ} (env : Env) (a a' : Abs σ) (s s1 : Sc σ)
   omega
 
 theorem nextLoop_prog {σ} [DecidableEq σ] (env : Env) (prog : σ → Prog σ) (inputs : List UInt8)
-    (reachAt : σ → List (List σ × List Ev × Nat × Bool)) (ht : TableOk prog inputs reachAt) (n : Nat) :
+    (reachAt : σ → List (RKey σ)) (ht : TableOk prog inputs reachAt) (n : Nat) :
     ∀ (Bm B : Nat) (s : Sc σ), GoodP env reachAt Bm B s → Bm < n → ProgOk env reachAt Bm B (nextLoop env prog n s) := by
   induction n with
   | zero => intro Bm B s _ hb; omega
@@ -178,17 +180,17 @@ theorem nextLoop_prog {σ} [DecidableEq σ] (env : Env) (prog : σ → Prog σ) 
       by_cases hgt : s.cur > env.size
       · simp only [hgt, if_true]; exact hg
       · simp only [hgt, if_false]
-        have hlive : ∃ a, memR reachAt a = true ∧ Conc a s ∧ mu env a s ≤ Bm ∧ bigM env a s ≤ B := by
+        have hlive : ∃ a, memR reachAt a = true ∧ Conc a s ∧ ExtRel env.size a s ∧ mu env a s ≤ Bm ∧ bigM env a s ≤ B := by
           rcases hg with h | ⟨hbig, _⟩
           · exact h
           · exact absurd hbig hgt
-        obtain ⟨a, ha, hc, hm, hM⟩ := hlive
+        obtain ⟨a, ha, hc, hx, hm, hM⟩ := hlive
         obtain ⟨⟨eouts, heo, heall⟩, hlag, hsucc⟩ := okAt_spec prog inputs reachAt a ht.closed_ ha
         have hst : s.step = a.st := hc.1
-        have hcc := concC_start a s hc
+        have hcc := concC_start env.size a s hc hx (by omega)
         have h0 : 0 ≤ s.cur := by omega
         have hsz : s.cur ≤ env.size := by omega
-        have after : ∀ (s1 : Sc σ) (a' : Abs σ), ConcC ⟨s.cur, s.finds.length, a.lag, a.fresh⟩ a' s1 →
+        have after : ∀ (s1 : Sc σ) (a' : Abs σ), ConcC ⟨s.cur, s.finds.length, a.lag, a.fresh, env.size, s.cur == env.size⟩ a' s1 →
             (memR reachAt a'.next = true ∨ s1.cur + 1 > env.size) →
             ProgOk env reachAt Bm B
               (match drain ({ s1 with cur := s1.cur + 1 } : Sc σ).finds.length { s1 with cur := s1.cur + 1 } with
@@ -198,10 +200,11 @@ theorem nextLoop_prog {σ} [DecidableEq σ] (env : Env) (prog : σ → Prog σ) 
           intro s1 a' hcc1 hor
           have hc1 : Conc a' s1 := hcc1.1
           have hc2 : Conc a'.next ({ s1 with cur := s1.cur + 1 } : Sc σ) := hc1
-          obtain ⟨lex, s3, hd, hc3, hcur3, hlen3⟩ := drain_sound a'.next _ _ (Nat.le_refl _) hc2
+          have hx2 := extRel_next env.size a' s1 hcc1.2.2.2.1
+          obtain ⟨lex, s3, hd, hc3, hx3, hcur3, hlen3, _⟩ := drain_sound env.size a'.next _ _ (Nat.le_refl _) hc2 hx2
           rw [hd]
-          have hlt := mu_step env a a' s s1 h0 hsz hlag hcc1.2.2
-          have hLt := bigM_step env a a' s s1 h0 hsz hlag hcc1.2.2
+          have hlt := mu_step env a a' s s1 h0 hsz hlag _ _ hcc1.2.2.1
+          have hLt := bigM_step env a a' s s1 h0 hsz hlag _ _ hcc1.2.2.1
           have hmu3 : mu env a'.next s3 < mu env a s := by rw [mu_congr env a'.next _ s3 hcur3]; exact hlt
           have hM3 : bigM env a'.next s3 < bigM env a s := by
             have e : mu env a'.next s3 = mu env a'.next ({ s1 with cur := s1.cur + 1 } : Sc σ) := mu_congr env a'.next _ s3 hcur3
@@ -211,14 +214,14 @@ theorem nextLoop_prog {σ} [DecidableEq σ] (env : Env) (prog : σ → Prog σ) 
             omega
           have hg3 : GoodP env reachAt (mu env a'.next s3) (bigM env a'.next s3) s3 := by
             rcases hor with hmem | hp
-            · exact Or.inl ⟨a'.next, hmem, hc3, Nat.le_refl _, Nat.le_refl _⟩
-            · exact Or.inr ⟨by rw [hcur3]; exact hp, ⟨a'.next, hc3⟩, by simp only [bigM]; omega⟩
+            · exact Or.inl ⟨a'.next, hmem, hc3, hx3, Nat.le_refl _, Nat.le_refl _⟩
+            · exact Or.inr ⟨by rw [hcur3]; exact hp, ⟨a'.next, hc3, hx3⟩, by simp only [bigM]; omega⟩
           cases lex with
           | some l => exact ⟨bigM env a'.next s3, by omega, GoodP.mono hg3 (by omega) (Nat.le_refl _)⟩
           | none => exact ProgOk.mono (ih _ _ s3 hg3 (by omega)) (by omega) (by omega)
         by_cases hend : (s.cur == (env.size : Int)) = true
         · simp only [hend, if_true, Bool.not_true, Bool.false_and, Bool.false_eq_true, if_false]
-          have hs := stepFuel_sound env prog 0 ⟨s.cur, s.finds.length, a.lag, a.fresh⟩ chainFuel s.step a.norm s eouts hcc (by rw [hst]; exact heo)
+          have hs := stepFuel_sound env prog 0 ⟨s.cur, s.finds.length, a.lag, a.fresh, env.size, s.cur == env.size⟩ rfl (by simp [hend]) chainFuel s.step a.norm s eouts hcc (by rw [hst]; exact heo)
           revert hs
           cases hsf : stepFuel env prog 0 chainFuel s.step s with
           | error f =>
@@ -244,7 +247,8 @@ theorem nextLoop_prog {σ} [DecidableEq σ] (env : Env) (prog : σ → Prog σ) 
             obtain ⟨r, hr, hagn⟩ := ht.rep c hc0
             rw [stepFuel_agnostic env prog c r hagn chainFuel s.step s]
             obtain ⟨outs, houts, hall⟩ := hsucc r hr
-            have hs := stepFuel_sound env prog r ⟨s.cur, s.finds.length, a.lag, a.fresh⟩ chainFuel s.step a.norm s outs hcc (by rw [hst]; exact houts)
+            have hrz : (r == 0) = false := by simpa using ht.nz r hr
+            have hs := stepFuel_sound env prog r ⟨s.cur, s.finds.length, a.lag, a.fresh, env.size, s.cur == env.size⟩ rfl (by simp only [hrz]; simpa using hend) chainFuel s.step a.norm s outs hcc (by rw [hst]; exact houts)
             revert hs
             cases hsf : stepFuel env prog r chainFuel s.step s with
             | error f =>
@@ -267,7 +271,7 @@ theorem processEvent_ne_fuel {σ} (s : Sc σ) (ev : Ev × Int) : processEvent s 
 
 /-- one call of `Scanner.Next` with fuel above the byte-loop potential -/
 theorem next_prog {σ} [DecidableEq σ] (env : Env) (prog : σ → Prog σ) (inputs : List UInt8)
-    (reachAt : σ → List (List σ × List Ev × Nat × Bool)) (ht : TableOk prog inputs reachAt) (fuel : Nat)
+    (reachAt : σ → List (RKey σ)) (ht : TableOk prog inputs reachAt) (fuel : Nat)
     (Bm B : Nat) (s : Sc σ) (hg : GoodP env reachAt Bm B s) (hb : Bm < fuel) :
     ProgOk env reachAt Bm B (next env prog fuel s) := by
   unfold next
@@ -275,21 +279,21 @@ theorem next_prog {σ} [DecidableEq σ] (env : Env) (prog : σ → Prog σ) (inp
   | nil => exact nextLoop_prog env prog inputs reachAt ht fuel Bm B s hg hb
   | cons ev rest =>
     dsimp only
-    have step : ∀ a, Conc a s → ∃ lex s', processEvent { s with finds := rest } ev = .ok (lex, s') ∧ Conc a s' ∧
-        s'.cur = s.cur ∧ s'.finds = rest := by
-      intro a hc
-      obtain ⟨lex, s', hp, hc', hrest, hcur⟩ := processEvent_sound a s ev rest hfs hc
-      exact ⟨lex, s', hp, hc', hcur, hrest⟩
+    have step : ∀ a, Conc a s → ExtRel env.size a s → ∃ lex s', processEvent { s with finds := rest } ev = .ok (lex, s') ∧ Conc a s' ∧
+        ExtRel env.size a s' ∧ s'.cur = s.cur ∧ s'.finds = rest := by
+      intro a hc hx
+      obtain ⟨lex, s', hp, hc', hx', hrest, hcur, _⟩ := processEvent_sound env.size a s ev rest hfs hc hx
+      exact ⟨lex, s', hp, hc', hx', hcur, hrest⟩
     have : ∃ lex s', processEvent { s with finds := rest } ev = .ok (lex, s') ∧ ∃ B', B' < B ∧ GoodP env reachAt Bm B' s' := by
-      rcases hg with ⟨a, ha, hc, hm, hM⟩ | ⟨hbig, ⟨a, hc⟩, hlen⟩
-      · obtain ⟨lex, s', hp, hc', hcur, hrest⟩ := step a hc
-        refine ⟨lex, s', hp, bigM env a s', ?_, Or.inl ⟨a, ha, hc', by rw [mu_congr env a s s' hcur]; exact hm, Nat.le_refl _⟩⟩
+      rcases hg with ⟨a, ha, hc, hx, hm, hM⟩ | ⟨hbig, ⟨a, hc, hx⟩, hlen⟩
+      · obtain ⟨lex, s', hp, hc', hx', hcur, hrest⟩ := step a hc hx
+        refine ⟨lex, s', hp, bigM env a s', ?_, Or.inl ⟨a, ha, hc', hx', by rw [mu_congr env a s s' hcur]; exact hm, Nat.le_refl _⟩⟩
         simp only [bigM, mu_congr env a s s' hcur, hrest] at hM ⊢
         simp only [hfs, List.length_cons] at hM
         omega
-      · obtain ⟨lex, s', hp, hc', hcur, hrest⟩ := step a hc
+      · obtain ⟨lex, s', hp, hc', hx', hcur, hrest⟩ := step a hc hx
         simp only [hfs, List.length_cons] at hlen
-        exact ⟨lex, s', hp, B - 1, by omega, Or.inr ⟨by rw [hcur]; exact hbig, ⟨a, hc'⟩, by rw [hrest]; omega⟩⟩
+        exact ⟨lex, s', hp, B - 1, by omega, Or.inr ⟨by rw [hcur]; exact hbig, ⟨a, hc', hx'⟩, by rw [hrest]; omega⟩⟩
     obtain ⟨lex, s', hp, B', hB', hg'⟩ := this
     rw [hp]
     cases lex with
@@ -299,7 +303,7 @@ theorem next_prog {σ} [DecidableEq σ] (env : Env) (prog : σ → Prog σ) (inp
 /-- a whole scan: with byte-loop fuel above `Bm` and more than `B` calls allowed, it never ends
     for lack of fuel -/
 theorem scanFrom_prog {σ} [DecidableEq σ] (env : Env) (prog : σ → Prog σ) (inputs : List UInt8)
-    (reachAt : σ → List (List σ × List Ev × Nat × Bool)) (ht : TableOk prog inputs reachAt) (fuel : Nat) (Bm : Nat)
+    (reachAt : σ → List (RKey σ)) (ht : TableOk prog inputs reachAt) (fuel : Nat) (Bm : Nat)
     (hb : Bm < fuel) (n : Nat) :
     ∀ (B : Nat) (s : Sc σ) (acc : List Lexeme), GoodP env reachAt Bm B s → B < n →
       (scanFrom env prog fuel n s acc).2.1 ≠ .fault .fuel := by
@@ -325,10 +329,11 @@ theorem scanFrom_prog {σ} [DecidableEq σ] (env : Env) (prog : σ → Prog σ) 
         exact ih B' s' (l :: acc) hg' (by omega)
 
 /-- the initial state: potentials `4·|file| + 11` and `(findCap + 1)` times that -/
-theorem goodP_init {σ} [DecidableEq σ] (env : Env) (reachAt : σ → List (List σ × List Ev × Nat × Bool)) (root : σ)
-    (h : (reachAt root).contains ([], [], 0, true) = true) :
+theorem goodP_init {σ} [DecidableEq σ] (env : Env) (reachAt : σ → List (RKey σ)) (root : σ)
+    (h : (reachAt root).contains ([], [], 0, true, [], 0) = true) :
     GoodP env reachAt (4 * env.size + 11) ((findCap + 1) * (4 * env.size + 11)) (Sc.init root) := by
-  refine Or.inl ⟨{ st := root, stk := [], evk := [] }, h, ⟨rfl, ⟨[], rfl⟩, rfl⟩, ?_, ?_⟩
+  refine Or.inl ⟨{ st := root, stk := [], evk := [] }, h, ⟨rfl, ⟨[], rfl⟩, rfl⟩,
+    ⟨⟨[], rfl, trivial⟩, by simp [Sc.init], by simp [Sc.init], by simp [Sc.init]⟩, ?_, ?_⟩
   · simp [mu, Sc.init]
     omega
   · simp [bigM, mu, Sc.init, findCap]
